@@ -2,4 +2,4 @@
 From IoraVerif Require Import C07.Model.
 Require Import ExtrOcamlBasic.
 Extraction Language OCaml.
-Extraction "../build/ocaml/c07_model.ml" client_session_ok server_session_ok client_mode listener_mode client_ctx server_ctx.
+Extraction "../build/ocaml/c07_model.ml" client_session_ok server_session_ok client_mode listener_mode client_ctx server_ctx peer_name_known http_client_name_known.
